@@ -79,7 +79,9 @@ pub fn jstr(x: &str) -> String {
 }
 /// u64 as [hi, lo] in base 2^24 (radix change only).
 pub fn jsize(n: u64) -> String {
-    format!("[{},{}]", n >> 24, n & 0xFF_FFFF)
+    // hi saturates at 2^30: only arguments far above the 192 GiB limit are affected, where
+    // nothing but "above the limit" matters.
+    format!("[{},{}]", (n >> 24).min(1 << 30), n & 0xFF_FFFF)
 }
 /// u32 as [hi16, lo16].
 pub fn jw32(n: u32) -> String {
@@ -103,6 +105,8 @@ pub struct Shards {
     pub counts: Vec<u64>,
     cur: usize,
     pub weights: Vec<u64>,
+    unit_pending: bool,
+    pub units: u64,
 }
 impl Shards {
     pub fn new(dir: &str, prefix: &str, n: usize) -> Self {
@@ -114,7 +118,7 @@ impl Shards {
                 )
             })
             .collect();
-        Shards { files, counts: vec![0; n], cur: 0, weights: vec![0; n] }
+        Shards { files, counts: vec![0; n], cur: 0, weights: vec![0; n], unit_pending: true, units: 0 }
     }
     /// Select the lightest shard for the next unit.
     pub fn next_unit(&mut self) {
@@ -125,13 +129,22 @@ impl Shards {
             }
         }
         self.cur = best;
+        self.unit_pending = true;
+        self.units += 1;
     }
     pub fn emit(&mut self, line: &str) {
         self.emit_w(line, 1);
     }
     pub fn emit_w(&mut self, line: &str, weight: u64) {
         let f = &mut self.files[self.cur];
-        f.write_all(line.as_bytes()).unwrap();
+        if self.unit_pending {
+            // mark the first event of an independent history
+            self.unit_pending = false;
+            f.write_all(b"{\"unit\":1,").unwrap();
+            f.write_all(line[1..].as_bytes()).unwrap();
+        } else {
+            f.write_all(line.as_bytes()).unwrap();
+        }
         f.write_all(b"\n").unwrap();
         self.counts[self.cur] += 1;
         self.weights[self.cur] += weight;
